@@ -293,10 +293,110 @@ def multi_remove_chunk(seed, idx, n):
     return ex
 
 
+BURST_CLASSES = ('Machine', 'LockedMachine', 'HierarchicalMachine', 'AsyncMachine', 'HierarchicalAsyncMachine')
+BURST_SIZES = (1, 7, 300, 1100, 2600)
+
+
+def burst_failures(case):
+    """the model's queue is an unbounded list (the theorems hold for every length): ONE callback of a queued machine
+    defers `n` further events at once, across two models; every deferred call returns True at once, and afterwards every
+    one of them has been processed exactly once, in arrival order, after the event in progress — for sizes far beyond
+    what the random programs reach"""
+    import asyncio
+    from transitions.extensions import MachineFactory
+    from transitions.extensions.asyncio import AsyncMachine, HierarchicalAsyncMachine
+    n, cls_name, qmode = case['n'], case['cls'], case['qmode']
+    is_async = 'Async' in cls_name
+    cls = {'AsyncMachine': AsyncMachine, 'HierarchicalAsyncMachine': HierarchicalAsyncMachine}.get(cls_name) or \
+        MachineFactory.get_predefined(locked='Locked' in cls_name, nested='Hierarchical' in cls_name)
+    log, rets = [], []
+
+    class M(object):
+        pass
+    models = [M(), M()]
+    holder = {}
+    if is_async:
+        async def burst(k, m):
+            log.append(('start', k, m))
+            for i in range(n):
+                rets.append(await models[i % 2].tick(i, i % 2))
+            log.append(('burst-done', k, m))
+    else:
+        def burst(k, m):
+            log.append(('start', k, m))
+            for i in range(n):
+                rets.append(models[i % 2].tick(i, i % 2))
+            log.append(('burst-done', k, m))
+
+    def ticked(k, m):
+        log.append(('tick', k, m))
+
+    def fin(k, m):
+        log.append(('fin', k, m))
+    machine = cls(model=models, states=['A', 'B'], initial='A', queued=qmode, finalize_event=[fin], transitions=[
+        {'trigger': 'go', 'source': 'A', 'dest': 'B', 'after': [burst]},
+        {'trigger': 'tick', 'source': '*', 'dest': '=', 'after': [ticked]}])
+    holder['m'] = machine
+    try:
+        if is_async:
+            r0 = asyncio.run(models[0].go(-1, 0))
+        else:
+            r0 = models[0].go(-1, 0)
+    except BaseException as e:      # noqa: BLE001
+        return [Failure('monitor', 'burst-raised', case, {'error': '%s: %s' % (type(e).__name__, str(e)[:200])},
+                        signature='C05.burst')]
+    bad = []
+    if r0 is not True or not all(r is True for r in rets) or len(rets) != n:
+        bad.append(('burst-return-values', {'first': repr(r0), 'deferred_calls': len(rets),
+                                            'not_true': sum(1 for r in rets if r is not True)}))
+    ticks = [it[1] for it in log if it[0] == 'tick']
+    if qmode == 'model' and is_async:
+        # per-model queues: model 0's own events wait for `go`, model 1's run when they arrive; per model in order
+        per = [[it[1] for it in log if it[0] == 'tick' and it[2] == j] for j in (0, 1)]
+        want = [[i for i in range(n) if i % 2 == j] for j in (0, 1)]
+        if per != want:
+            bad.append(('burst-not-exactly-once-in-order', {'n': n, 'processed': [len(x) for x in per],
+                        'first_missing': [sorted(set(w) - set(p))[:5] for w, p in zip(want, per)]}))
+        done = next((i for i, it in enumerate(log) if it == ('fin', -1, 0)), None)
+        first0 = next((i for i, it in enumerate(log) if it[0] == 'tick' and it[2] == 0), None)
+        if n and per[0] and (done is None or first0 < done):
+            bad.append(('burst-not-run-to-completion', {'n': n}))
+    else:
+        if ticks != list(range(n)):
+            bad.append(('burst-not-exactly-once-in-order', {'n': n, 'processed': len(ticks),
+                        'first_missing': sorted(set(range(n)) - set(ticks))[:5],
+                        'first_out_of_order': next((i for i, (a, b) in enumerate(zip(ticks, range(n))) if a != b), None)}))
+        done = next((i for i, it in enumerate(log) if it == ('fin', -1, 0)), None)
+        first = next((i for i, it in enumerate(log) if it[0] == 'tick'), None)
+        if n and ticks and (done is None or first < done):
+            bad.append(('burst-not-run-to-completion', {'n': n}))
+    return [Failure('monitor', w, case, dict(d, cls=cls_name, qmode=qmode), signature='C05.burst') for w, d in bad]
+
+
+def burst_chunk(seed, idx, n):
+    rng = random.Random('C05/burst/%d/%d' % (seed, idx))
+    ex = Exploration()
+    for k in range(n):
+        cls = BURST_CLASSES[(idx + k) % len(BURST_CLASSES)]
+        case = {'stream': 'burst', 'cls': cls, 'n': rng.choice(BURST_SIZES),
+                'qmode': (rng.choice([True, 'model']) if 'Async' in cls else True)}
+        ex.evaluations += 1
+        ex.traces_validated += 1
+        ex.nontrivial.add('burst/%s/%s/%d' % (case['cls'], case['qmode'], case['n']))
+        h = ex.stats.setdefault('burst_size', {})
+        h[str(case['n'])] = h.get(str(case['n']), 0) + 1
+        ex.failures += burst_failures(case)
+        if ex.failures:
+            break
+    return ex
+
+
 def any_chunk(kind, *args):
     """one worker entry point for the kinds of streams"""
     if kind == 'multi-remove':
         return multi_remove_chunk(*args)
+    if kind == 'burst':
+        return burst_chunk(*args)
     if kind == 'flat':
         return flatcheck.chunk(*args)
     if kind == 'nested':
@@ -339,7 +439,9 @@ class C05(flatcheck.FlatCheck):
             'machine-level and state-level declarations) with callbacks at every stage triggering events and raising, with '
             'and without on_exception handlers, queued and direct, on HierarchicalMachine / LockedHierarchicalMachine / '
             'HierarchicalAsyncMachine; AsyncMachine with queued=True and queued=\'model\' on 1-3 models incl. structured '
-            'nested-session scenarios; non-trivial = at least one trigger issued from inside a callback')
+            'nested-session scenarios; a burst stream: one callback defers 1 / 7 / 300 / 1100 / 2600 events at once across two '
+            'models (sync, locked, hierarchical and async classes; queued True and \'model\') — the model\'s queue is an unbounded '
+            'list, the implementation\'s must be as well; non-trivial = at least one trigger issued from inside a callback')
     trusted = ('hand-written model lean/Model/Core.lean (Machine._process, remove_model) tied to /repo by trace equality',
                'hand-written models lean/Model/NestedDispatch.lean (nested-queued / nested-unqueued streams) and '
                'lean/Model/Async.lean (C07 check + async-monitor stream), tied by trace equality',
@@ -373,6 +475,7 @@ class C05(flatcheck.FlatCheck):
         nch, per = ASYNC_MONITOR['quick' if tier == 'quick' else 'thorough']
         payloads += [('async-monitor', seed, i, per) for i in range(nch)]
         payloads += [('multi-remove', seed, i, 12 if tier == 'quick' else 120) for i in range(4)]
+        payloads += [('burst', seed, i, 5 if tier == 'quick' else 15) for i in range(4)]
         ex = Exploration()
         for part in runner.parallel(any_chunk, payloads):
             ex.merge(part)
@@ -396,6 +499,8 @@ class C05(flatcheck.FlatCheck):
     def kind_of(case):
         if case['stream'] == 'multi-remove':
             return 'multi-remove'
+        if case['stream'] == 'burst':
+            return 'burst'
         if case['stream'] in nested5.STREAMS:
             return 'nested'
         if case['stream'] == 'async-monitor':
@@ -404,7 +509,7 @@ class C05(flatcheck.FlatCheck):
 
     def steps_for(self, case):
         k = self.kind_of(case)
-        if k == 'multi-remove':
+        if k in ('multi-remove', 'burst'):
             return lambda c: iter(())
         if k == 'nested':
             return nested5.shrink_steps
@@ -419,6 +524,8 @@ class C05(flatcheck.FlatCheck):
         k = self.kind_of(case)
         if k == 'multi-remove':
             return multi_remove_failures(case)
+        if k == 'burst':
+            return burst_failures(case)
         if k == 'nested':
             return nested5.rejudge(case)[0]
         if k == 'async-monitor':
@@ -465,8 +572,8 @@ class C05(flatcheck.FlatCheck):
             return 1
         case = payload['case']
         k = self.kind_of(case)
-        if k == 'multi-remove':
-            fs = multi_remove_failures(case)
+        if k in ('multi-remove', 'burst'):
+            fs = multi_remove_failures(case) if k == 'multi-remove' else burst_failures(case)
             for f in fs:
                 print('FAIL', f.what, json.dumps(f.details, default=str)[:1200])
             return 1 if fs else 0
